@@ -73,6 +73,8 @@ type Net struct {
 	Dials  []*DialRec
 	Conns  []*ConnRec
 	BufCap int
+	dead   bool
+	all    []*TCPConn
 }
 
 const key = "simnet"
@@ -80,7 +82,20 @@ const key = "simnet"
 func Install(r *simrt.Run) *Net {
 	n := &Net{run: r, Servers: map[string]*Server{}, BufCap: 64 << 10}
 	r.Attach(key, n)
+	r.OnEnd(n.shutdown)
 	return n
+}
+
+// shutdown aborts every connection at the end of the run, so that goroutines the scheduler does
+// not control (HTTP clients, scripted servers) terminate instead of keeping the bubble alive.
+func (n *Net) shutdown() {
+	n.mu.Lock()
+	n.dead = true
+	conns := append([]*TCPConn{}, n.all...)
+	n.mu.Unlock()
+	for _, c := range conns {
+		c.Reset()
+	}
 }
 
 func Get() *Net {
@@ -532,6 +547,13 @@ func (d *Dialer) DialContext(ctx context.Context, network, address string) (net.
 		return fail(os.NewSyscallError("connect", syscall.ECONNREFUSED))
 	}
 	c, s := pair(n.BufCap, "10.255.255.1:40000", address)
+	n.mu.Lock()
+	dead := n.dead
+	n.all = append(n.all, c, s)
+	n.mu.Unlock()
+	if dead {
+		return fail(net.ErrClosed)
+	}
 	crec := &ConnRec{Addr: address, AcceptT: r.Now()}
 	n.mu.Lock()
 	crec.ID = len(n.Conns)
